@@ -1,7 +1,7 @@
 """C20 — no client byte sequence can crash or wedge a connection."""
 import re
 
-from engines import effects, panics, cursor
+from engines import effects, panics, cursor, readloop
 from engines.obligations import Bounds, dominating_facts, truth_of
 from engines.prog import cname, term_str, fold, _cint
 from engines import terms as T
@@ -280,6 +280,17 @@ def run(ctx):
                 ctx.ob("C20.loop-progress", verdict is False, "the reader loop can go around after the transport returned %s bytes: a closed connection would spin" % ("0" if verdict else "an untested number of"),
                        fn=fr.path, construct="read-zero-leaves", where=fr.where(p.blocks[-1]), sample={"rule": "loop-progress/read-zero", "cycle_blocks": len(p.blocks)})
         ctx.floor("C20.loop-progress", "cycles of the reader loop through the transport read (%s)" % cfg, ncyc, 1)
+        # a complete but malformed message must be refused (Failure), not answered with `read more` (Error/Incomplete):
+        # otherwise the server waits for bytes the client will never send (wedge)
+        psites = [bb for bb, t in fr.calls() if cname(t["func"]) in prog.bodies and t["args"] and "[u8]" in (t.get("arg_tys") or [""])[0] and
+                  "nom::" in prog.bodies[cname(t["func"])].raw.get("sig_out", "")]
+        nb = 0
+        for pb_ in psites:
+            for fn_, b_, bb_, i_, vname in readloop.built_verdicts(prog, cname(fr.term(pb_)["func"])):
+                nb += 1
+                ctx.ob("C20.loop-progress", vname == "Failure", "%s answers a malformed message with nom::Err::%s, which the reader takes as `read more`: the connection would wait forever" % (fn_, vname),
+                       fn=fn_, construct="built-verdict", callee=vname, where=b_.where(bb_, i_))
+        ctx.floor("C20.loop-progress", "verdicts built by the framing parsers (%s)" % cfg, nb, 1)
 
 
 def _must_pass(body, header, back_src, through):
